@@ -54,10 +54,12 @@ pub open spec fn blinding_ok(p: &MvPoly, num_vars: nat, d: nat) -> bool {
     forall|i: int| 0 <= i < p.terms@.len() ==> (#[trigger] p.terms@[i]).1.v@.len() <= 1
         && (p.terms@[i].1.v@.len() == 1 ==> p.terms@[i].1.v@[0].0 < num_vars && 1 <= p.terms@[i].1.v@[0].1 <= d)
 }
+// the degree parameter a random polynomial was sampled with (its univariate summands have d + 1 random coefficients each)
+pub uninterp spec fn sampled_degree(p: &MvPoly) -> nat;
 impl MvPoly {
     // SparsePolynomial::rand(d, l, rng): the sum of l univariate polynomials of degree d with coefficients from the caller's stream   [assumed]
     #[verifier::external_body] pub fn rand(d: usize, l: usize, rng: &mut Rng) -> (r: MvPoly)
-        ensures old(rng).present@, blinding_ok(&r, l as nat, d as nat), r.num_vars == l,
+        ensures old(rng).present@, blinding_ok(&r, l as nat, d as nat), r.num_vars == l, sampled_degree(&r) == d,
             final(rng).id == old(rng).id, final(rng).present == old(rng).present, final(rng).pos@ >= old(rng).pos@ + r.terms@.len(),
             forall|i: int| 0 <= i < r.terms@.len() ==> (#[trigger] r.terms@[i]).0@ == draw(old(rng).id@, old(rng).pos@ + i as nat) { unimplemented!() }
 }
@@ -84,7 +86,8 @@ impl Randomness {
         hiding_bound < usize::MAX,
     ensures
         // (no variable count: abort)  one univariate blinding polynomial of degree hiding_bound + 1 per variable, coefficients fresh from the caller's RNG
-        num_vars is Some, old(rng).present@, blinding_ok(&r.blinding_polynomial, num_vars->Some_0 as nat, (hiding_bound + 1) as nat),   // name=pst13.Randomness.rand.degree_bound_plus_one_per_variable props=C07
+        num_vars is Some, old(rng).present@, blinding_ok(&r.blinding_polynomial, num_vars->Some_0 as nat, (hiding_bound + 1) as nat),
+        sampled_degree(&r.blinding_polynomial) == hiding_bound + 1,   // name=pst13.Randomness.rand.degree_bound_plus_one_per_variable props=C07
         final(rng).id == old(rng).id, final(rng).present == old(rng).present, final(rng).pos@ >= old(rng).pos@ + r.blinding_polynomial.terms@.len(),
         forall|i: int| 0 <= i < r.blinding_polynomial.terms@.len() ==> (#[trigger] r.blinding_polynomial.terms@[i]).0@ == draw(old(rng).id@, old(rng).pos@ + i as nat),   // name=pst13.Randomness.rand.coefficients_from_the_callers_rng props=C07
 //@body
